@@ -22,7 +22,7 @@ def run(tier, rep):
         "an escaped invalid UTF-8 byte / U+FFFD truncates the value inside go-corelib's ByteUnescape (a dependency, not modelled, not generated)",
         "the segment name is matched raw; element lookups are replayed for names without release characters",
     ]
-    jobs = [("len<=3", dict(MaxLen=3, EmitMod=1)), ("len<=4", dict(MaxLen=4, EmitMod=12 if not thorough else 3))]
+    jobs = [("len<=3", dict(MaxLen=3, EmitMod=1 if thorough else 2)), ("len<=4", dict(MaxLen=4, EmitMod=30 if not thorough else 3))]
     if thorough:
         jobs.append(("len<=5", dict(MaxLen=5, EmitMod=60)))
 
